@@ -16,7 +16,9 @@ EXPLANATION = (
     "branch clears the write buffer, marks the connection Closed and performs no I/O; map insertions "
     "are preceded by epoll_add of the same descriptor and removals accompanied by epoll_del (which is "
     "what makes the two unwraps admissible); a response is queued on a connection only when it is not "
-    "Closed. Decides these clauses; progress of other clients over histories is not decided."
+    "Closed; a connection is released exactly when it is Closed and its in-flight counter is 0, and that counter "
+    "moves only by += what read() returns and -= 1 per response, so a dead connection is kept while, and only while, "
+    "an answer is owed. Decides these clauses; progress of other clients over histories is not decided."
 )
 TRUSTED = ["epoll reports only registered descriptors", "a descriptor number is not reused while open"]
 ASSUMPTIONS = []
@@ -55,6 +57,15 @@ def run(ctx):
     ctx.guarded("R09.10", "panics", server_panics)
     ctx.rule("R09.11", "the in-flight counter cannot overflow for any realistic history: it is at least 32 bits wide and the number of requests read is not narrowed before it is added")
     ctx.guarded("R09.11", "counter-width", lambda: counter_width(ctx, "R09.11"))
+    ctx.rule("R09.12", "a connection that can no longer be written to is released when, and not before, everything yielded from it has been answered: the counter that decides it moves only by += what read() returns and -= 1 per response (= C07 R07.6), and is_done() is Closed with that counter at 0 (= C10 R10.7)")
+    from .c07 import counter
+
+    def released_when_answered():
+        from .c10 import is_done
+        is_done(_Remap(ctx, "R09.12"), "R10.7")
+
+    ctx.guarded("R09.12", "counter", lambda: counter(_Remap(ctx, "R09.12")))
+    ctx.guarded("R09.12", "is_done", released_when_answered)
 
 
 def write_guard(ctx):
